@@ -218,6 +218,8 @@ def main(c):
     m = drvlib.admission(c)
     c.cov["distinct_nontrivial"] = (n or 0) + (m or 0)
     c.cov["evaluations"] = max(c.cov.get("evaluations", 0), (n or 0) + (m or 0))      # table cases run + admission steps replayed
+    if not c.violations:
+        drvlib.admission_window(c)
     c.cov["rule"] = ("negotiation: 25,600 pairs of (MP families, ADD-PATH entry lists incl. duplicates / invalid modes / entries for "
                      "families without MP, extended-next-hop lists), 16 pairs of (4-octet AS, extended message), 289 GR pairs, 100 LLGR "
                      "pairs - each from both ends; admission: behaviours of Admission.tla (see parts)")
